@@ -12,6 +12,28 @@ pub open spec fn rev(o: Ordering) -> Ordering {
     match o { Ordering::Less => Ordering::Greater, Ordering::Equal => Ordering::Equal, Ordering::Greater => Ordering::Less }
 }
 
+// Ghost model of std::hash::Hasher: the sequence of words fed so far. `Hash` mirrors std::hash::Hash for the one std type the
+// container impls hash directly (usize, the length prefix). Hand-written mirrors, ASSUMED to describe std:
+// `<usize as Hash>::hash` feeds exactly one word determined by the value.
+pub trait Hasher: Sized {
+    spec fn fed(&self) -> Seq<u64>;
+    // the integer write methods of std::hash::Hasher: each feeds one word determined by the value
+    fn write_u8(&mut self, i: u8) ensures final(self).fed() == old(self).fed() + seq![i as u64];
+    fn write_u32(&mut self, i: u32) ensures final(self).fed() == old(self).fed() + seq![i as u64];
+    fn write_u64(&mut self, i: u64) ensures final(self).fed() == old(self).fed() + seq![i];
+    fn write_usize(&mut self, i: usize) ensures final(self).fed() == old(self).fed() + seq![i as u64];
+}
+pub trait Hash {
+    spec fn words(&self) -> Seq<u64>;
+    fn hash<H: Hasher>(&self, state: &mut H)
+        ensures final(state).fed() == old(state).fed() + self.words();
+}
+impl Hash for usize {
+    open spec fn words(&self) -> Seq<u64> { seq![*self as u64] }
+    #[verifier::external_body]
+    fn hash<H: Hasher>(&self, state: &mut H) { unimplemented!() }
+}
+
 // The laws of the property statement (L1-L4): reflexive equality, cmp == Equal exactly for equal values,
 // antisymmetry, transitivity. Every instance has to prove them.
 pub trait DoubleOps: Sized {
@@ -34,6 +56,14 @@ pub trait DoubleOps: Sized {
 
     fn eq(&self, other: &Self) -> (r: bool)
         ensures r == self.eq_spec(other);
+
+    // L6: the words a value feeds to the hasher, and "equal values feed identical words"
+    spec fn hash_words(&self) -> Seq<u64>;
+    proof fn law_hash(a: &Self, b: &Self)
+        ensures a.eq_spec(b) ==> a.hash_words() == b.hash_words();
+    fn hash<H>(&self, hasher: &mut H)
+        where H: Hasher
+        ensures final(hasher).fed() == old(hasher).fed() + self.hash_words();
 }
 
 // ------------------------------------------------------------------------------------------- f64 (base)
@@ -59,7 +89,15 @@ impl DoubleOps for f64 {
     fn cmp(&self, other: &Self) -> Ordering { unimplemented!() }
     #[verifier::external_body]
     fn eq(&self, other: &Self) -> bool { unimplemented!() }
+
+    // hash through OrderedFloat: assumed here, discharged by C14.K.f64.laws (L6 for all pairs of f64)
+    open spec fn hash_words(&self) -> Seq<u64> { f64_words(*self) }
+    #[verifier::external_body]
+    proof fn law_hash(a: &Self, b: &Self) {}
+    #[verifier::external_body]
+    fn hash<H>(&self, hasher: &mut H) where H: Hasher { unimplemented!() }
 }
+pub uninterp spec fn f64_words(a: f64) -> Seq<u64>;
 
 // ------------------------------------------------------------------------------------------- Option<T>
 pub open spec fn opt_cmp<T: DoubleOps>(a: Option<T>, b: Option<T>) -> Ordering {
@@ -102,6 +140,18 @@ where
 
 //@@ fn DoubleOps for Option<T>::eq vfn=Option::eq
 //@@ end
+
+    // hash: a tag word, then the payload's words. The law is proved from this spec; that the code
+    // (mem::discriminant(self).hash(..); payload.hash(..)) feeds these words is ASSUMED in this unit (mem::discriminant has no
+    // Verus specification) and discharged for f64 payloads by C14.K.option_f64.laws / option_option_f64.laws.
+    open spec fn hash_words(&self) -> Seq<u64> {
+        match *self { Some(x) => seq![1u64] + x.hash_words(), None => seq![0u64] }
+    }
+    proof fn law_hash(a: &Self, b: &Self) {
+        match (*a, *b) { (Some(x), Some(y)) => { T::law_hash(&x, &y); } _ => {} }
+    }
+    #[verifier::external_body]
+    fn hash<H>(&self, hasher: &mut H) where H: Hasher { unimplemented!() }
 }
 
 // ------------------------------------------------------------------------------------------- Vec<T>
@@ -209,6 +259,38 @@ pub proof fn lemma_seq_trans<T: DoubleOps>(a: Seq<T>, b: Seq<T>, c: Seq<T>)
     }
 }
 
+// the words of a sequence of elements, in order
+pub open spec fn flat<T: DoubleOps>(s: Seq<T>) -> Seq<u64>
+    decreases s.len()
+{
+    if s.len() == 0 { Seq::<u64>::empty() } else { flat(s.drop_last()) + s.last().hash_words() }
+}
+
+pub proof fn lemma_flat_snoc<T: DoubleOps>(s: Seq<T>, i: int)
+    requires 0 <= i < s.len()
+    ensures flat(s.take(i + 1)) == flat(s.take(i)) + s[i].hash_words()
+{
+    assert(s.take(i + 1).drop_last() =~= s.take(i));
+    assert(s.take(i + 1).last() == s[i]);
+}
+
+pub proof fn lemma_flat_eq<T: DoubleOps>(a: Seq<T>, b: Seq<T>)
+    requires seq_eq(a, b)
+    ensures flat(a) == flat(b)
+    decreases a.len()
+{
+    if a.len() > 0 {
+        T::law_hash(&a.last(), &b.last());
+        assert(a.last().eq_spec(&b.last()));
+        assert forall|i: int| 0 <= i < a.drop_last().len() implies (#[trigger] a.drop_last()[i]).eq_spec(&b.drop_last()[i]) by {
+            assert(a.drop_last()[i] == a[i]);
+            assert(b.drop_last()[i] == b[i]);
+            assert(a[i].eq_spec(&b[i]));
+        }
+        lemma_flat_eq(a.drop_last(), b.drop_last());
+    }
+}
+
 impl<T> DoubleOps for Vec<T>
 where
     T: DoubleOps,
@@ -240,6 +322,24 @@ where
                 self@.len() == other@.len(),
                 forall|k: int| 0 <= k < $LOOPVAR0 ==> (#[trigger] self@[k]).eq_spec(&other@[k]),
 //@@ end
+
+    // L6 for lists of any length: the length word, then every element's words in order
+    open spec fn hash_words(&self) -> Seq<u64> { seq![self@.len() as u64] + flat(self@) }
+    proof fn law_hash(a: &Self, b: &Self) {
+        if a.eq_spec(b) { lemma_flat_eq(a@, b@); }
+    }
+
+//@@ fn DoubleOps for Vec<T>::hash vfn=Vec::hash
+//@@ subst for $LOOPVAR0 in $LOOPEXPR0 ==> for $LOOPVAR0 in it: $LOOPEXPR0
+//@@ loop 0
+            invariant
+                0 <= it.index@ <= self@.len(),
+                hasher.fed() == old(hasher).fed() + seq![self@.len() as u64] + flat(self@.take(it.index@ as int)),
+//@@ loopbody 0
+            proof { lemma_flat_snoc(self@, it.index@ as int); }
+//@@ post
+        proof { assert(self@.take(self@.len() as int) =~= self@); }
+//@@ end
 }
 
 // ------------------------------------------------------------------------------------------- nesting witness
@@ -251,7 +351,9 @@ pub proof fn witness_nested(a: &Option<Vec<Option<f64>>>, b: &Option<Vec<Option<
         a.eq_spec(b) <==> a.cmp_spec(b) == Ordering::Equal,
         a.cmp_spec(b) == rev(b.cmp_spec(a)),
         a.cmp_spec(b) != Ordering::Greater && b.cmp_spec(c) != Ordering::Greater ==> a.cmp_spec(c) != Ordering::Greater,
+        a.eq_spec(b) ==> a.hash_words() == b.hash_words(),
 {
+    <Option<Vec<Option<f64>>> as DoubleOps>::law_hash(a, b);
     <Option<Vec<Option<f64>>> as DoubleOps>::law_refl(a);
     <Option<Vec<Option<f64>>> as DoubleOps>::law_eq_iff_cmp_equal(a, b);
     <Option<Vec<Option<f64>>> as DoubleOps>::law_antisym(a, b);
